@@ -159,3 +159,27 @@ fn c09_group_shares_ascii4() {
         kani::cover!(true, "reached");
     }
 }
+
+// ---- adss::recover on foreign shares: whatever key length the Shamir layer returns ---------
+#[kani::proof]
+#[kani::stub(keccak::f1600, f1600_any)]
+#[kani::stub(<byteorder::LittleEndian as byteorder::ByteOrder>::read_u64_into, read_u64_into_25)]
+#[kani::stub(<byteorder::LittleEndian as byteorder::ByteOrder>::write_u64_into, write_u64_into_25)]
+#[kani::stub(zeroize::optimization_barrier, barrier_noop)]
+#[kani::stub(<strobe_rs::Strobe as core::ops::Drop>::drop, strobe_drop_noop)]
+#[kani::stub(<adss::AccessStructure as core::ops::Drop>::drop, drop_noop_access)]
+#[kani::stub(<adss::Commune as core::ops::Drop>::drop, drop_noop_commune)]
+#[kani::stub(star_sharks::Sharks::recover, sharks_recover_any_len)]
+#[kani::unwind(5)]
+fn c09_recover_any_key_length() {
+    let x: [u64; 3] = kani::any();
+    let t: u32 = kani::any();
+    let c: [u8; 2] = kani::any();
+    let d: [u8; 2] = kani::any();
+    let j: [u8; 64] = kani::any();
+    let s = adss::Share::verif_from_parts(t, star_sharks::Share { x: fp_from_limbs(x), y: Vec::new() }, c.to_vec(), d.to_vec(), j);
+    let v = [s];
+    let r = adss::recover(&v);
+    kani::cover!(r.is_err(), "rejected");
+    core::mem::forget((r, v));
+}
